@@ -1,5 +1,5 @@
 """C14 — object streams yield each object under its identifier."""
-import re, zlib
+import re, zlib, base64
 
 ID = 'C14'
 PROFILES = ['debug']
@@ -10,7 +10,9 @@ KIDS = ['C14-offsets-unused', 'C14-duplicate-overwrites']
 RULE = ('object streams of 1..12 objects of every value kind (integers, reals, names, strings, hex strings, booleans, null, '
         'references, nested arrays and dictionaries) x white-space / comment choices between header numbers and before '
         'objects x gap contents between the end of one object and the declared offset of the next {nothing, white space, '
-        'comment, a complete other object, junk} x pre-defined contexts x FlateDecode; every single corruption of a '
+        'comment, a complete other object, junk} x pre-defined contexts x filters {FlateDecode levels 0/1/6/9, ASCIIHex, '
+        'ASCII85, A85+Flate, AHex+Flate, A85+AHex} x shapes {random, many repetitive members with compressed size < /First < '
+        'decoded size, incompressible}; every single corruption of a '
         'header number (offset +-1, swapped, equal, negative, missing pair; offset = len-1 / len / len+1 / beyond / 2^31..2^64, '
         'identifier 0 / duplicate / huge), of /N and /First (0, 1, +-1, = len, huge), object data running past '
         'the next offset, duplicate identifiers (inside the stream and against the context); exhaustive: all 2-object '
@@ -141,16 +143,60 @@ def _isint(x):
     return isinstance(x, int) and not isinstance(x, bool)
 
 
+def _ahex_decode(b):
+    out = bytearray()
+    for x in b:
+        if x in WS:
+            continue
+        if x == 0x3e:
+            if len(out) % 2:
+                out.append(0x30)
+            return bytes.fromhex(out.decode())
+        if x not in b'0123456789abcdefABCDEF':
+            return None
+        out.append(x)
+    return None                                      # no EOD
+
+
+def _a85_decode(b):
+    t = bytes(x for x in b if x not in WS)
+    if not t.endswith(b'~>'):
+        return None
+    t = t[:-2]
+    if t.startswith(b'<~'):
+        t = t[2:]
+    try:
+        return base64.a85decode(t)
+    except Exception:
+        return None
+
+
 def _py_decode(d, content):
+    """python's own decoding of the declared filter chain (names only, no parameters); None if not handled here."""
     f = d.get(b'Filter')
     if f is None:
         return content
-    if f != ('name', b'FlateDecode') or b'DecodeParms' in d:
+    if b'DecodeParms' in d:
         return None
-    try:
-        return zlib.decompress(content)
-    except Exception:
+    names = [f] if isinstance(f, tuple) else f
+    if not isinstance(names, list) or not names:
         return None
+    data = content
+    for nm in names:
+        if nm == ('name', b'FlateDecode'):
+            try:
+                data = zlib.decompress(data)
+            except Exception:
+                return None
+        elif nm == ('name', b'ASCIIHexDecode'):
+            data = _ahex_decode(data)
+        elif nm == ('name', b'ASCII85Decode'):
+            data = _a85_decode(data)
+        else:
+            return None
+        if data is None:
+            return None
+    return data
 
 
 _HNUM = re.compile(rb'(?:[ \x00\t\r\n\x0c]|%[^\n]*(?:\n|\Z))*([+-]?[0-9]+)')
@@ -504,15 +550,51 @@ def cases(tier, rng):
                 for sh in (-1, 0, 1):
                     d, c = build_stream(rng, [5, 6], [v1, v2], [g, b''], None, None, [0, sh])
                     out.append(os_case(d, c, {}, [(5, 0), (6, 0)]))
-    # FlateDecode
-    nf = 1000 if tier == 'thorough' else 40
-    for _ in range(nf):
-        n = rng.randrange(1, 8)
-        ids = rng.sample(range(1, 60), n)
-        vals = [rand_value(rng) for _ in range(n)]
-        d, c = build_stream(rng, ids, vals, [rng.choice(GAPS[:5]) if vals[i][-1:] in b')]>' else b' ' for i in range(n)])
-        d['Filter'] = oname('FlateDecode')
-        out.append(os_case(d, zlib.compress(c), {}, qs(ids, {}), decoded=c))
+    # filtered object streams ("with any supported filter"): FlateDecode at several levels, ASCIIHex, ASCII85 and chains;
+    # the decoder output goes to the model, the implementation decodes itself.  Shapes: random members; many small
+    # repetitive members (long header, data compresses well: compressed size < /First < decoded size); incompressible
+    def enc_flate(level):
+        return lambda b: zlib.compress(b, level)
+
+    def enc_ahex(b):
+        h = b.hex().encode()
+        if rng.random() < 0.5:
+            h = h.upper()
+        if rng.random() < 0.5:
+            h = b'\n'.join(h[i:i + 32] for i in range(0, len(h), 32))
+        return h + b'>'
+
+    def enc_a85(b):
+        return (b'<~' if rng.random() < 0.3 else b'') + base64.a85encode(b) + b'~>'
+
+    chains = [(['FlateDecode'], [enc_flate(0)]), (['FlateDecode'], [enc_flate(1)]), (['FlateDecode'], [enc_flate(6)]),
+              (['FlateDecode'], [enc_flate(9)]), (['ASCIIHexDecode'], [enc_ahex]), (['ASCII85Decode'], [enc_a85]),
+              (['ASCII85Decode', 'FlateDecode'], [enc_a85, enc_flate(9)]), (['ASCIIHexDecode', 'FlateDecode'], [enc_ahex, enc_flate(6)]),
+              (['ASCII85Decode', 'ASCIIHexDecode'], [enc_a85, enc_ahex])]
+    nf = 40 if tier == 'thorough' else 4
+    for (names, encs) in chains:
+        for shape in ('random', 'repetitive', 'incompressible'):
+            for r in range(nf if shape == 'random' else max(2, nf // 2)):
+                if shape == 'random':
+                    n = rng.randrange(1, 10)
+                    vals = [rand_value(rng) for _ in range(n)]
+                    gaps = [rng.choice(GAPS[:5]) if vals[i][-1:] in b')]>' else b' ' for i in range(n)]
+                elif shape == 'repetitive':
+                    n = rng.choice([40, 60, 90])
+                    vals = [rng.choice([b'[ 0 0 0 0 ]', b'[ 0 0 0 0 ]', b'<< /A 0 >>', b'0'])] * n
+                    gaps = [b' '] * n
+                else:
+                    n = rng.randrange(1, 4)
+                    vals = [b'<' + bytes(rng.choice(b'0123456789abcdef') for _ in range(2 * rng.randrange(40, 120))) + b'>' for _ in range(n)]
+                    gaps = [b' '] * n
+                ids = rng.sample(range(1, 400), n)
+                d, c = build_stream(rng, ids, vals, gaps)
+                e = c
+                for f in reversed(encs):                      # the first declared filter is applied last when encoding
+                    e = f(e)
+                d['Filter'] = oname(names[0]) if len(names) == 1 and r % 2 == 0 else arr([oname(x) for x in names])
+                ctx = {(ids[-1], 0): 'm' + b'old'.hex()} if r % 4 == 3 else {}
+                out.append(os_case(d, e, ctx, qs(ids[:6] + ids[-2:], ctx), decoded=c))
     return out
 
 
